@@ -10,10 +10,12 @@ namespace ASV
 /-- an origin-spanning span on the reverse strand, in Biopython's part order -/
 def areaTwoRev (x y L : Int) : Loc := .compound [⟨0, y, .rev⟩, ⟨x, L, .rev⟩]
 
-/-- the inputs covered: a single non-empty part inside `[0, L]` (as a simple location or a
-    one-part compound), or an origin-spanning span `[x, L) + [0, y)` with `0 < y ≤ x < L` -/
+/-- the inputs covered: a location that does not bridge the origin, with all parts non-empty and
+    inside `[0, L]` (single-part locations of any strand, genes with introns, …), or an
+    origin-spanning span `[x, L) + [0, y)` with `0 < y ≤ x < L` (any single strand; on the reverse
+    strand also in Biopython's part order `[0, y)(−), [x, L)(−)`) -/
 def RingIn (L : Int) (l : Loc) : Prop :=
-  (∃ p, l.parts = [p] ∧ 0 ≤ p.lo ∧ p.lo < p.hi ∧ p.hi ≤ L) ∨
+  (l.parts ≠ [] ∧ bridgesOrigin l = false ∧ ∀ p ∈ l.parts, 0 ≤ p.lo ∧ p.lo < p.hi ∧ p.hi ≤ L) ∨
   (∃ x y s, l = areaTwo x y L s ∧ 0 < y ∧ y ≤ x ∧ x < L) ∨
   (∃ x y, l = areaTwoRev x y L ∧ 0 < y ∧ y ≤ x ∧ x < L)
 
@@ -24,6 +26,18 @@ def toR (l : Loc) : RLoc :=
     | [p, q] => if p.strand == .rev then .two q.lo p.hi else .two p.lo q.hi
     | _ => .one default
   else .one ⟨l.start, l.end, l.strand⟩
+
+theorem start_end_attained (l : Loc) (hne : l.parts ≠ []) :
+    (∃ p ∈ l.parts, l.start = p.lo) ∧ (∃ p ∈ l.parts, l.end = p.hi) := by
+  cases l with
+  | simple q => exact ⟨⟨q, by simp [Loc.parts], rfl⟩, ⟨q, by simp [Loc.parts], rfl⟩⟩
+  | compound ps =>
+    simp only [Loc.parts] at hne
+    have h1 : ps.map (·.lo) ≠ [] := by simpa using hne
+    have h2 : ps.map (·.hi) ≠ [] := by simpa using hne
+    obtain ⟨q, hq, e⟩ := List.mem_map.1 (minList_mem h1)
+    obtain ⟨q2, hq2, e2⟩ := List.mem_map.1 (maxList_mem h2)
+    exact ⟨⟨q, hq, e.symm⟩, ⟨q2, hq2, e2.symm⟩⟩
 
 theorem splitBridging_twoRev (x y L : Int) (hy0 : 0 < y) (hyx : y ≤ x) (hxL : x < L) :
     splitBridging (areaTwoRev x y L) = .ok ([⟨0, y, .rev⟩], [⟨x, L, .rev⟩]) := by
@@ -41,52 +55,23 @@ theorem splitBridging_twoRev (x y L : Int) (hy0 : 0 < y) (hyx : y ≤ x) (hxL : 
     bind, Except.bind, pure, Except.pure, throw, throwThe, MonadExceptOf.throw]
   simp [hno, insertInt]
 
-/-- the reduced form of an input: well-formed, what `_reduce_parts_to_location` returns, bridging
-    exactly when it has two parts, and covering every base of the input -/
-theorem toR_spec (L : Int) (hL : 0 < L) (l : Loc) (h : RingIn L l) :
-    (toR l).OK L ∧ reduceParts l.parts (some L) = .ok ((toR l).toLoc L) ∧
-      bridgesOrigin l = (toR l).isTwo ∧ ∀ i, l.mem i = true → ((toR l).toLoc L).mem i = true := by
-  have hL' : ¬ L ≤ 0 := by omega
-  rcases h with ⟨p, hp, h0, h1, h2⟩ | ⟨x, y, s, rfl, hy0, hyx, hxL⟩ | ⟨x, y, rfl, hy0, hyx, hxL⟩
-  · have hb : bridgesOrigin l = false := by
-      cases l with
-      | simple q => rfl
-      | compound ps =>
-        simp only [Loc.parts] at hp; subst hp
-        cases hs : p.strand <;> simp [bridgesOrigin, Loc.strand, hs, orderInvalid, sortInts, insertInt]
-    have he : (⟨l.start, l.end, l.strand⟩ : Part) = p := by
-      cases l with
-      | simple q => simp only [Loc.parts, List.cons.injEq, and_true] at hp; subst hp; rfl
-      | compound ps =>
-        simp only [Loc.parts] at hp; subst hp
-        cases p; simp [Loc.start, Loc.end, Loc.strand, minList, maxList]
-    have ht : toR l = .one p := by simp only [toR, hb, Bool.false_eq_true, if_false, he]
-    rw [ht, hp]
-    refine ⟨⟨h0, h1, h2⟩, reduce_single p _, hb, ?_⟩
-    intro i hi
-    simp only [Loc.mem, hp] at hi
-    simpa [RLoc.toLoc, Loc.mem, Loc.parts] using hi
+/-- the reduced form of each kind of input -/
+theorem toR_eq (L : Int) (hL : 0 < L) (l : Loc) (h : RingIn L l) :
+    (l.parts ≠ [] ∧ bridgesOrigin l = false ∧ (∀ p ∈ l.parts, 0 ≤ p.lo ∧ p.lo < p.hi ∧ p.hi ≤ L) ∧
+      toR l = .one ⟨l.start, l.end, l.strand⟩) ∨
+    (∃ x y s, s ≠ .rev ∧ l = areaTwo x y L s ∧ 0 < y ∧ y ≤ x ∧ x < L ∧ toR l = .two x y) ∨
+    (∃ x y, l = areaTwoRev x y L ∧ 0 < y ∧ y ≤ x ∧ x < L ∧ toR l = .two x y) := by
+  rcases h with ⟨hne, hb, hp⟩ | ⟨x, y, s, rfl, hy0, hyx, hxL⟩ | ⟨x, y, rfl, hy0, hyx, hxL⟩
+  · exact Or.inl ⟨hne, hb, hp, by simp only [toR, hb, Bool.false_eq_true, if_false]⟩
   · by_cases hs : s = .rev
     · subst hs
       have hb : bridgesOrigin (areaTwo x y L .rev) = false := by
         have : ¬ x < 0 := by omega
         simp [areaTwo, bridgesOrigin, Loc.strand, orderInvalid, this]
-      have hst : (areaTwo x y L .rev).start = 0 := by simp [areaTwo, Loc.start, minList]; omega
-      have hen : (areaTwo x y L .rev).end = L := by simp [areaTwo, Loc.end, maxList]; omega
-      have hsd : (areaTwo x y L .rev).strand = .rev := by simp [areaTwo, Loc.strand]
-      have ht : toR (areaTwo x y L .rev) = .one ⟨0, L, .rev⟩ := by
-        simp only [toR, hb, Bool.false_eq_true, if_false, hst, hen, hsd]
-      rw [ht]
-      refine ⟨by simp only [RLoc.OK]; omega, ?_, hb, ?_⟩
-      · have hb' := hb
-        simp only [areaTwo] at hb'
-        simp only [areaTwo, Loc.parts, reduceParts, hb', Bool.false_eq_true, if_false, pure, Except.pure, RLoc.toLoc]
-        simp only [areaTwo] at hst hen hsd
-        rw [hst, hen, hsd]
-      · intro i hi
-        rw [areaTwo, mem_two] at hi
-        simp only [RLoc.toLoc, mem_simple]
-        dsimp only at hi; omega
+      refine Or.inl ⟨by simp [areaTwo, Loc.parts], hb, ?_, by simp only [toR, hb, Bool.false_eq_true, if_false]⟩
+      intro p hp
+      simp only [areaTwo, Loc.parts, List.mem_cons, List.mem_nil_iff, or_false] at hp
+      rcases hp with rfl | rfl <;> (dsimp only; omega)
     · have hb : bridgesOrigin (areaTwo x y L s) = true := by
         have h1 : x > 0 := by omega
         have h2 : ¬ x ≤ 0 := by omega
@@ -96,24 +81,54 @@ theorem toR_spec (L : Int) (hL : 0 < L) (l : Loc) (h : RingIn L l) :
       have ht : toR (areaTwo x y L s) = .two x y := by
         simp only [toR, hb, if_true]
         simp only [areaTwo, Loc.parts, hsr, Bool.false_eq_true, if_false]
-      rw [ht]
-      refine ⟨⟨hy0, hyx, hxL⟩, ?_, hb, ?_⟩
-      · have hb' := hb
-        simp only [areaTwo] at hb'
-        simp only [areaTwo, Loc.parts, reduceParts, hb', if_true, hL', if_false,
-          splitBridging_two x y L s hs hy0 hyx hxL, List.map, minList, maxList, List.foldl, bind, Except.bind,
-          pure, Except.pure, RLoc.toLoc]
-      · intro i hi
-        rw [areaTwo, mem_two] at hi
-        simp only [RLoc.toLoc, mem_two, fl]
-        exact hi
+      exact Or.inr (Or.inl ⟨x, y, s, hs, rfl, hy0, hyx, hxL, ht⟩)
   · have hb : bridgesOrigin (areaTwoRev x y L) = true := by
       have h1 : 0 < x := by omega
       simp [areaTwoRev, bridgesOrigin, Loc.strand, orderInvalid, h1]
     have ht : toR (areaTwoRev x y L) = .two x y := by
       simp only [toR, hb, if_true]
       simp only [areaTwoRev, Loc.parts, beq_self_eq_true, if_true]
-    rw [ht]
+    exact Or.inr (Or.inr ⟨x, y, rfl, hy0, hyx, hxL, ht⟩)
+
+/-- the reduced form of an input: well-formed, what `_reduce_parts_to_location` returns, bridging
+    exactly when it has two parts, and covering every base of the input -/
+theorem toR_spec (L : Int) (hL : 0 < L) (l : Loc) (h : RingIn L l) :
+    (toR l).OK L ∧ reduceParts l.parts (some L) = .ok ((toR l).toLoc L) ∧
+      bridgesOrigin l = (toR l).isTwo ∧ ∀ i, l.mem i = true → ((toR l).toLoc L).mem i = true := by
+  have hL' : ¬ L ≤ 0 := by omega
+  rcases toR_eq L hL l h with ⟨hne, hb, hp, ht⟩ | ⟨x, y, s, hs, rfl, hy0, hyx, hxL, ht⟩ | ⟨x, y, rfl, hy0, hyx, hxL, ht⟩
+  · rw [ht]
+    obtain ⟨⟨p1, hp1, e1⟩, ⟨p2, hp2, e2⟩⟩ := start_end_attained l hne
+    have b1 := hp p1 hp1
+    have b2 := hp p2 hp2
+    have b3 := start_le_part l p2 hp2
+    refine ⟨by simp only [RLoc.OK]; omega, reduceParts_nonbridging l hne hb _, hb, ?_⟩
+    intro i hi
+    simp only [Loc.mem, List.any_eq_true, Part.mem_iff] at hi
+    obtain ⟨p, hpm, h1, h2⟩ := hi
+    have := start_le_part l p hpm
+    simp only [RLoc.toLoc, mem_simple]; omega
+  · rw [ht]
+    have hb := bridges_two x y L hy0 hyx
+    have hb' : bridgesOrigin (areaTwo x y L s) = true := by
+      have h1 : x > 0 := by omega
+      have h2 : ¬ x ≤ 0 := by omega
+      cases s <;> simp [areaTwo, bridgesOrigin, Loc.strand, orderInvalid, sortInts, insertInt, h1, h2] at hs ⊢
+      all_goals omega
+    refine ⟨⟨hy0, hyx, hxL⟩, ?_, hb', ?_⟩
+    · have hb'' := hb'
+      simp only [areaTwo] at hb''
+      simp only [areaTwo, Loc.parts, reduceParts, hb'', if_true, hL', if_false,
+        splitBridging_two x y L s hs hy0 hyx hxL, List.map, minList, maxList, List.foldl, bind, Except.bind,
+        pure, Except.pure, RLoc.toLoc]
+    · intro i hi
+      rw [areaTwo, mem_two] at hi
+      simp only [RLoc.toLoc, mem_two, fl]
+      exact hi
+  · rw [ht]
+    have hb : bridgesOrigin (areaTwoRev x y L) = true := by
+      have h1 : 0 < x := by omega
+      simp [areaTwoRev, bridgesOrigin, Loc.strand, orderInvalid, h1]
     refine ⟨⟨hy0, hyx, hxL⟩, ?_, hb, ?_⟩
     · have hb' := hb
       have hsb := splitBridging_twoRev x y L hy0 hyx hxL
@@ -167,92 +182,63 @@ theorem connect_ring_closed (ls : List Loc) (L : Int) (hne : ls ≠ []) (hL : 0 
   · rw [if_pos rfl]
     exact connectLocations_B 1 ls L _ hne hL hok hred (by rw [hany, htwo]) htwo
 
-/-- the reduced form of each kind of input -/
-theorem toR_eq (L : Int) (hL : 0 < L) (l : Loc) (h : RingIn L l) :
-    (∃ p, l.parts = [p] ∧ l.start = p.lo ∧ l.end = p.hi ∧ toR l = .one p) ∨
-    (∃ x y, l = areaTwo x y L .rev ∧ 0 < y ∧ y ≤ x ∧ x < L ∧ toR l = .one ⟨0, L, .rev⟩) ∨
-    (∃ x y s, s ≠ .rev ∧ l = areaTwo x y L s ∧ 0 < y ∧ y ≤ x ∧ x < L ∧ toR l = .two x y) ∨
-    (∃ x y, l = areaTwoRev x y L ∧ 0 < y ∧ y ≤ x ∧ x < L ∧ toR l = .two x y) := by
-  rcases h with ⟨p, hp, h0, h1, h2⟩ | ⟨x, y, s, rfl, hy0, hyx, hxL⟩ | ⟨x, y, rfl, hy0, hyx, hxL⟩
-  · have hb : bridgesOrigin l = false := by
-      cases l with
-      | simple q => rfl
-      | compound ps =>
-        simp only [Loc.parts] at hp; subst hp
-        cases hs : p.strand <;> simp [bridgesOrigin, Loc.strand, hs, orderInvalid, sortInts, insertInt]
-    have he : (⟨l.start, l.end, l.strand⟩ : Part) = p := by
-      cases l with
-      | simple q => simp only [Loc.parts, List.cons.injEq, and_true] at hp; subst hp; rfl
-      | compound ps =>
-        simp only [Loc.parts] at hp; subst hp
-        cases p; simp [Loc.start, Loc.end, Loc.strand, minList, maxList]
-    have ht : toR l = .one p := by simp only [toR, hb, Bool.false_eq_true, if_false, he]
-    exact Or.inl ⟨p, hp, (start_single l p hp).1, (start_single l p hp).2, ht⟩
-  · by_cases hs : s = .rev
-    · subst hs
-      have hb : bridgesOrigin (areaTwo x y L .rev) = false := by
-        have : ¬ x < 0 := by omega
-        simp [areaTwo, bridgesOrigin, Loc.strand, orderInvalid, this]
-      have hst : (areaTwo x y L .rev).start = 0 := by simp [areaTwo, Loc.start, minList]; omega
-      have hen : (areaTwo x y L .rev).end = L := by simp [areaTwo, Loc.end, maxList]; omega
-      have hsd : (areaTwo x y L .rev).strand = .rev := by simp [areaTwo, Loc.strand]
-      have ht : toR (areaTwo x y L .rev) = .one ⟨0, L, .rev⟩ := by
-        simp only [toR, hb, Bool.false_eq_true, if_false, hst, hen, hsd]
-      exact Or.inr (Or.inl ⟨x, y, rfl, hy0, hyx, hxL, ht⟩)
-    · have hb : bridgesOrigin (areaTwo x y L s) = true := by
-        have h1 : x > 0 := by omega
-        have h2 : ¬ x ≤ 0 := by omega
-        cases s <;> simp [areaTwo, bridgesOrigin, Loc.strand, orderInvalid, sortInts, insertInt, h1, h2] at hs ⊢
-        all_goals omega
-      have hsr : (s == Strand.rev) = false := by simpa using hs
-      have ht : toR (areaTwo x y L s) = .two x y := by
-        simp only [toR, hb, if_true]
-        simp only [areaTwo, Loc.parts, hsr, Bool.false_eq_true, if_false]
-      exact Or.inr (Or.inr (Or.inl ⟨x, y, s, hs, rfl, hy0, hyx, hxL, ht⟩))
-  · have hb : bridgesOrigin (areaTwoRev x y L) = true := by
-      have h1 : 0 < x := by omega
-      simp [areaTwoRev, bridgesOrigin, Loc.strand, orderInvalid, h1]
-    have ht : toR (areaTwoRev x y L) = .two x y := by
-      simp only [toR, hb, if_true]
-      simp only [areaTwoRev, Loc.parts, beq_self_eq_true, if_true]
-    exact Or.inr (Or.inr (Or.inr ⟨x, y, rfl, hy0, hyx, hxL, ht⟩))
-
 /-- reducing keeps `start` and `end` -/
 theorem toR_start_end (L : Int) (hL : 0 < L) (l : Loc) (h : RingIn L l) :
     ((toR l).toLoc L).start = l.start ∧ ((toR l).toLoc L).end = l.end := by
-  rcases toR_eq L hL l h with ⟨p, hp, h1, h2, ht⟩ | ⟨x, y, rfl, hy0, hyx, hxL, ht⟩ |
-      ⟨x, y, s, hs, rfl, hy0, hyx, hxL, ht⟩ | ⟨x, y, rfl, hy0, hyx, hxL, ht⟩
-  · rw [ht, h1, h2]; exact ⟨rfl, rfl⟩
-  · rw [ht]; simp only [RLoc.toLoc, areaTwo, Loc.start, Loc.end, List.map, minList, maxList, List.foldl]; omega
+  rcases toR_eq L hL l h with ⟨hne, hb, hp, ht⟩ | ⟨x, y, s, hs, rfl, hy0, hyx, hxL, ht⟩ | ⟨x, y, rfl, hy0, hyx, hxL, ht⟩
+  · rw [ht]; exact ⟨rfl, rfl⟩
   · rw [ht]; exact ⟨rfl, rfl⟩
   · rw [ht]; simp only [RLoc.toLoc, areaTwoRev, Loc.start, Loc.end, List.map, minList, maxList, List.foldl, fl]; omega
 
-/-- an input whose reduced form has exactly its bases: everything except the two-exon
-    reverse-strand location `[x, L)(-), [0, y)(-)`, which Biopython's part order makes an ordinary
-    (not origin-spanning) gene with an intron, reduced to its line hull `[0, L)` -/
+/-- an input whose reduced form has exactly its bases: a single part, or an origin-spanning span.
+    (A location with several parts that does not bridge the origin — a gene with introns, among them
+    the two-exon reverse-strand location `[x, L)(−), [0, y)(−)` — is reduced to its line hull.) -/
 def RingInStrict (L : Int) (l : Loc) : Prop :=
   (∃ p, l.parts = [p] ∧ 0 ≤ p.lo ∧ p.lo < p.hi ∧ p.hi ≤ L) ∨
   (∃ x y s, s ≠ .rev ∧ l = areaTwo x y L s ∧ 0 < y ∧ y ≤ x ∧ x < L) ∨
   (∃ x y, l = areaTwoRev x y L ∧ 0 < y ∧ y ≤ x ∧ x < L)
 
+theorem single_not_bridging (l : Loc) (p : Part) (hp : l.parts = [p]) : bridgesOrigin l = false := by
+  cases l with
+  | simple q => rfl
+  | compound ps =>
+    simp only [Loc.parts] at hp; subst hp
+    cases hs : p.strand <;> simp [bridgesOrigin, Loc.strand, hs, orderInvalid, sortInts, insertInt]
+
 theorem RingInStrict.ringIn {L : Int} {l : Loc} (h : RingInStrict L l) : RingIn L l := by
-  rcases h with h | ⟨x, y, s, _, h⟩ | h
-  · exact Or.inl h
+  rcases h with ⟨p, hp, h0, h1, h2⟩ | ⟨x, y, s, _, h⟩ | h
+  · refine Or.inl ⟨by rw [hp]; simp, single_not_bridging l p hp, ?_⟩
+    intro q hq; rw [hp] at hq; simp only [List.mem_singleton] at hq; subst hq; exact ⟨h0, h1, h2⟩
   · exact Or.inr (Or.inl ⟨x, y, s, h⟩)
   · exact Or.inr (Or.inr h)
 
 theorem toR_mem_iff (L : Int) (hL : 0 < L) (l : Loc) (h : RingInStrict L l) (i : Int) :
     ((toR l).toLoc L).mem i = true ↔ l.mem i = true := by
-  rcases toR_eq L hL l h.ringIn with ⟨p, hp, h1, h2, ht⟩ | ⟨x, y, rfl, hy0, hyx, hxL, ht⟩ |
-      ⟨x, y, s, hs, rfl, hy0, hyx, hxL, ht⟩ | ⟨x, y, rfl, hy0, hyx, hxL, ht⟩
-  · rw [ht]; simp only [RLoc.toLoc, Loc.mem, hp]; rfl
-  · exfalso
-    rcases h with ⟨p, hp, _⟩ | ⟨x', y', s, hs, e, _⟩ | ⟨x', y', e, _⟩
-    · simp [areaTwo, Loc.parts] at hp
+  rcases h with ⟨p, hp, h0, h1, h2⟩ | ⟨x, y, s, hs, rfl, hy0, hyx, hxL⟩ | ⟨x, y, rfl, hy0, hyx, hxL⟩
+  · have hb := single_not_bridging l p hp
+    have ht : toR l = .one ⟨l.start, l.end, l.strand⟩ := by simp only [toR, hb, Bool.false_eq_true, if_false]
+    obtain ⟨e1, e2⟩ := start_single l p hp
+    rw [ht]
+    simp only [RLoc.toLoc]
+    rw [mem_simple]
+    simp only [e1, e2, Loc.mem, hp, List.any_cons, List.any_nil, Bool.or_false, Part.mem_iff]
+  · rcases toR_eq L hL _ (Or.inr (Or.inl ⟨x, y, s, rfl, hy0, hyx, hxL⟩)) with ⟨_, hb, _, _⟩ | ⟨x', y', s', _, e, _, _, _, ht⟩ | ⟨x', y', e, _⟩
+    · exfalso
+      have h1 : x > 0 := by omega
+      have h2 : ¬ x ≤ 0 := by omega
+      cases s <;> simp [areaTwo, bridgesOrigin, Loc.strand, orderInvalid, sortInts, insertInt, h1, h2] at hs hb
+      all_goals omega
     · simp only [areaTwo, Loc.compound.injEq, List.cons.injEq, Part.mk.injEq, and_true] at e
-      exact hs e.1.2.2.symm
-    · simp [areaTwo, areaTwoRev] at e; omega
-  · rw [ht, areaTwo, mem_two]; simp only [RLoc.toLoc, mem_two, fl]
-  · rw [ht, areaTwoRev, mem_two]; simp only [RLoc.toLoc, mem_two, fl]; omega
+      obtain ⟨⟨rfl, _, _⟩, _, rfl, _⟩ := e
+      rw [ht, areaTwo, mem_two]; simp only [RLoc.toLoc, mem_two, fl]
+    · exfalso; simp [areaTwo, areaTwoRev] at e; omega
+  · rcases toR_eq L hL _ (Or.inr (Or.inr ⟨x, y, rfl, hy0, hyx, hxL⟩)) with ⟨_, hb, _, _⟩ | ⟨x', y', s', _, e, _⟩ | ⟨x', y', e, _, _, _, ht⟩
+    · exfalso
+      have h1 : 0 < x := by omega
+      simp [areaTwoRev, bridgesOrigin, Loc.strand, orderInvalid, h1] at hb
+    · exfalso; simp [areaTwo, areaTwoRev] at e; omega
+    · simp only [areaTwoRev, Loc.compound.injEq, List.cons.injEq, Part.mk.injEq, and_true, true_and] at e
+      obtain ⟨rfl, rfl, _⟩ := e
+      rw [ht, areaTwoRev, mem_two]; simp only [RLoc.toLoc, mem_two, fl]; omega
 
 end ASV
